@@ -5,3 +5,4 @@ pub mod props;
 pub mod store_kit;
 pub mod sched;
 pub mod trk;
+pub mod fuzz;
